@@ -413,7 +413,16 @@ class LoadEngine(SqlEngine):
         raise SqlOutside("CAST(VARCHAR AS TIMESTAMP): continuation after the date that is not a complete time part")
 
     def cast(self, a: SV, to: exp.DataType, try_cast: bool, env: Dict[str, SV]) -> SV:
-        if to.sql(dialect="duckdb").upper() == "TIMESTAMP" and a.sort == "str":
+        tname = to.sql(dialect="duckdb").upper()
+        if tname in ("TIMESTAMP", "DATE") and a.sort == "str" and try_cast:
+            # TRY_CAST: a text DuckDB cannot read as a date yields NULL instead of an error (on this path)
+            if self.decide(a.null):
+                return SV("ts" if tname == "TIMESTAMP" else "date", 0, True)
+            try:
+                return self.cstr_to_ts(a.v) if tname == "TIMESTAMP" else self.cstr_to_date(a.v)
+            except SqlError:
+                return SV("ts" if tname == "TIMESTAMP" else "date", 0, True)
+        if tname == "TIMESTAMP" and a.sort == "str":
             if self.decide(a.null):
                 return SV("ts", 0, True)
             return self.cstr_to_ts(a.v)
